@@ -12,7 +12,7 @@ class Group(object):
 
     def __init__(self, name, harness, targets, stubs=(), tier="quick", timeout_s=300, expect_hits=(), world="COORD",
                  setup=None, feas_ms=3000, prove_ms=20000, max_paths=20000, patches=True, must_fail=False, classify=None,
-                 serves=(), label_filter=None):
+                 serves=(), label_filter=None, callee_for=()):
         self.name = name
         self.harness = harness
         self.targets = list(targets)
@@ -30,6 +30,9 @@ class Group(object):
         self.classify = classify
         self.serves = list(serves)
         self.label_filter = label_filter
+        # this group proves, on the real callee, a clause that the stub contract used by the named groups of the same check assumes.  A refuted
+        # clause voids those proofs (their clauses become undecided and are searched natively); it is not itself a violation of the property.
+        self.callee_for = list(callee_for)
 
 
 def _group_main(group, conn):
